@@ -67,6 +67,7 @@ fn gen_file(w: &mut Tape, env: &EnvRef) -> Result<(Syntax, Vec<ds::Elem>, Vec<u8
         latin1: false,
         utf8: false,
         other_cs: 0,
+        nested_charset: false,
     };
     let restrict_to = |m: &[ds::Elem], _syn: Syntax| m.to_vec();
     let mut model = restrict_to(&ds::gen_dataset(w, &gcfg), syn);
